@@ -29,7 +29,7 @@ def _lib_frames(api, text):
 # ---------------------------------------------------------------------------------------------- TSan
 
 def run_tsan(prop, tier, seed, stage, workdir, api):
-    logdir = os.path.join(workdir, 'tsanlogs')
+    logdir = os.path.join(workdir, 'tsanlogs-' + stage['flavour'])
     os.makedirs(logdir, exist_ok=True)
     st = dict(stage)
     env = dict(stage.get('env', {}))
